@@ -275,6 +275,8 @@ def _strip_lines(t):
         return t
     if t[0] == "bound":
         return ("bound",)
+    if t[0] in ("loopvar", "after") and len(t) == 3:
+        return (t[0], t[1])
     if t[0] == "var":
         return ("var", t[1], _strip_lines(t[3]))
     if t[0] == "and":
